@@ -111,7 +111,7 @@ def exact_system(rng, n, l, den=8, rmin=0.35, rmax=0.97, allow_unstable=False):
                 k += 1
         P, Pi = unimodular(rng, n, shears=n)
         A = Pi @ Abd @ P
-        C = rng.integers(-8, 9, size=(l, n)) / 4.0
+        C = rng.integers(-24, 25, size=(l, n)) / 8.0  # wide enough that coincidental exact ties / zero shapes are rare
         pairs = [(lam, Pi.astype(float) @ v) for lam, v in zip(lams, vs)]
         return A, C, pairs
     raise RuntimeError("generator could not place the poles")
